@@ -2,7 +2,7 @@
 (* impl -> spec: every recorded call of normalize_path / relative_path /   *)
 (* resolve_relative_path (and every path-valued artefact of a project run) *)
 (* is judged by the relation in Paths.tla.                                 *)
-EXTENDS Paths, TLC, Json, IOUtils
+EXTENDS Imports, TLC, Json, IOUtils
 Rec == ndJsonDeserialize(IOEnv.TRACE)
 VARIABLE l
 IsEvent(k) == l <= Len(Rec) /\ Rec[l].ev = k /\ l' = l + 1
@@ -75,8 +75,19 @@ TSources == /\ IsEvent("Sources")
                    bad == {i \in DOMAIN e.sources : ~\E j \in DOMAIN e.inputs : ResolveRef(e.at, e.sources[i]) = Normalize(e.inputs[j])}
                IN Report(IF bad = {} THEN <<>> ELSE <<Item("sources-target", "a `sources` entry does not resolve to an input file", e)>>)
 
+(* the third consumer the property names: every `#import` target.  One resolution of a root operation file over files in several  *)
+(* directories that use the SAME specifier text for different targets (and hidden / dotted directory names); the set of definitions   *)
+(* (file, kind, name) of the result must be the closure in which each (importer, specifier) pair resolves by Paths!ResolveRef.         *)
+ImpFilesOf(e) == [p \in {e.files[i].path : i \in DOMAIN e.files} |-> e.files[CHOOSE i \in DOMAIN e.files : e.files[i].path = p].d]
+TImportTargets ==
+  /\ IsEvent("ImportTargets")
+  /\ LET e == Rec[l]
+         files == ImpFilesOf(e)
+         out == IF e.out.k = "ok" THEN [k |-> "ok", defs |-> [i \in DOMAIN e.out.defs |-> <<e.out.defs[i].file, e.out.defs[i].kind, e.out.defs[i].name>>]] ELSE [k |-> e.out.k]
+     IN Report(IF ImportContract(files, e.root, out) THEN <<>>
+               ELSE <<Item("import-target", "an #import does not resolve to the file its specifier names relative to the importing file", [files |-> e.files, root |-> e.root, out |-> e.out])>>)
 Init == l = 1
-Next == TNorm \/ TResolve \/ TRel \/ TRef \/ TSpecifier \/ TSources
+Next == TNorm \/ TResolve \/ TRel \/ TRef \/ TSpecifier \/ TSources \/ TImportTargets
 Spec == Init /\ [][Next]_l
 Done == PrintT(<<"DONE", ToJson([consumed |-> TLCGet("stats").diameter - 1])>>)
 =============================================================================
